@@ -542,16 +542,16 @@ Proof.
     - intros [i k]. unfold h, d2, swap. cbn [fst snd]. lra.
     - intros a. unfold h, d2. cbn [fst snd]. lra. }
   assert (E3 : sumR (map h (upairs nb)) =
-               sumR (map (fun p => (@sq ROps (@nthT ROps w (fst p)) + @sq ROps (@nthT ROps w (snd p))) * @diff2 ROps x p) (upairs nb))).
-  { apply sumR_map_ext. intros p _. reflexivity. }
+               sumR (map (fun p => (@nthT ROps (map (@sq ROps) w) (fst p) + @nthT ROps (map (@sq ROps) w) (snd p)) * @diff2 ROps x p) (upairs nb))).
+  { apply sumR_map_ext. intros p _. rewrite !nthT_map_sq. reflexivity. }
   tr. lra.
 Qed.
 Lemma qf_weighted_lower eps w nb x : eps * @norm2 ROps x <= @qf_weighted ROps eps w nb x.
 Proof.
   unfold qf_weighted. rewrite sumT_sumR. cbn [add mul ROps].
-  assert (0 <= sumR (map (fun p => (@sq ROps (@nthT ROps w (fst p)) + @sq ROps (@nthT ROps w (snd p))) * @diff2 ROps x p) (upairs nb))).
+  assert (0 <= sumR (map (fun p => (@nthT ROps (map (@sq ROps) w) (fst p) + @nthT ROps (map (@sq ROps) w) (snd p)) * @diff2 ROps x p) (upairs nb))).
   { apply sumR_map_nonneg. intros p. apply Rmult_le_pos.
-    - unfold sq. cbn [mul ROps]. pose proof (Rle_0_sqr (@nthT ROps w (fst p))). pose proof (Rle_0_sqr (@nthT ROps w (snd p))). unfold Rsqr in *. lra.
+    - rewrite !nthT_map_sq. pose proof (Rle_0_sqr (xh w (fst p))). pose proof (Rle_0_sqr (xh w (snd p))). unfold Rsqr in *. lra.
     - change (@diff2 ROps x p) with (d2 x p). unfold d2. apply Rle_0_sqr. }
   tr. lra.
 Qed.
@@ -577,7 +577,10 @@ Lemma qf_weighted_meaning eps w nb x :
   sumR (map (fun p => (nth (fst p) w 0 * nth (fst p) w 0 + nth (snd p) w 0 * nth (snd p) w 0)
                       * ((nth (fst p) x 0 - nth (snd p) x 0) * (nth (fst p) x 0 - nth (snd p) x 0))) (upairs nb))
   + eps * sumR (map (fun v => v * v) x).
-Proof. unfold qf_weighted. rewrite sumT_sumR, norm2_R. reflexivity. Qed.
+Proof.
+  unfold qf_weighted. rewrite sumT_sumR, norm2_R. cbn [add mul ROps]. f_equal.
+  apply sumR_map_ext. intros p _. rewrite !nthT_map_sq. reflexivity.
+Qed.
 
 Lemma T_constant_size eps c nb : square_n (length nb) (@constant_matrix ROps eps c nb).
 Proof. apply build_wfm. Qed.
